@@ -27,7 +27,8 @@ def scratch():
 def copy_repo(dst, extra_files=None):
     os.makedirs(dst, exist_ok=True)
     for f in ('Cargo.toml', 'Cargo.lock'):
-        shutil.copy(os.path.join(REPO, f), os.path.join(dst, f))
+        if os.path.exists(os.path.join(REPO, f)):   # Cargo.lock is git-ignored in tz-rs (no dependencies): optional
+            shutil.copy(os.path.join(REPO, f), os.path.join(dst, f))
     shutil.copytree(os.path.join(REPO, 'src'), os.path.join(dst, 'src'), dirs_exist_ok=True)
     return dst
 
@@ -412,7 +413,6 @@ class Native:
         os.makedirs(s.dir, exist_ok=True)
         build_overlay(os.path.join(s.dir, 'ov'), kani=False, replay=True)
         shutil.copytree(os.path.join(VERIF, 'replay/bin'), os.path.join(s.dir, 'bin'), dirs_exist_ok=True)
-        shutil.copy(os.path.join(REPO, 'Cargo.lock'), os.path.join(s.dir, 'bin', 'Cargo.lock'))
         env = dict(ENV)
         env['CARGO_TARGET_DIR'] = os.path.join(s.dir, 'target')
         env['RUSTFLAGS'] = '--cfg verif_replay -C overflow-checks=on -A unexpected_cfgs' 
